@@ -304,6 +304,7 @@ class HTMLSerializer(object):
                     in_cdata = True
                 elif in_cdata:
                     self.serializeError("Unexpected child element of a CDATA element")
+                quote_attr = True
                 for (_, attr_name), attr_value in token["data"].items():
                     # TODO: Add namespace support here
                     k = attr_name
@@ -344,7 +345,8 @@ class HTMLSerializer(object):
                         else:
                             yield self.encode(v)
                 if name in voidElements and self.use_trailing_solidus:
-                    if self.space_before_trailing_solidus:
+                    # a solidus directly after an unquoted value would be read as part of it
+                    if self.space_before_trailing_solidus or not quote_attr:
                         yield self.encodeStrict(" /")
                     else:
                         yield self.encodeStrict("/")
